@@ -11,6 +11,7 @@
 //     and attached interfaces.
 //   - the codec table is replayed on the real ucrednet String / ucrednetGetWithInterfaces /
 //     ucrednetAttachInterface.
+//
 // All identifiers are prefixed verifAccess (another driver shares this package).
 package daemon
 
